@@ -244,20 +244,20 @@ func (fr *Frame) applyContract(st *State, site ssa.Instruction, c *Contract, fn 
 	case 0:
 	case 1:
 		result = mkRes(0, res.At(0).Type())
-		vars["result"] = result
+		vars["result"] = wrapTyped(result, res.At(0).Type())
 		if n := res.At(0).Name(); n != "" && n != "_" {
 			if _, clash := vars[n]; !clash {
-				vars[n] = result
+				vars[n] = vars["result"]
 			}
 		}
 	default:
 		es := make([]Value, res.Len())
 		for i := range es {
 			es[i] = mkRes(i, res.At(i).Type())
-			vars[fmt.Sprintf("result%d", i)] = es[i]
+			vars[fmt.Sprintf("result%d", i)] = wrapTyped(es[i], res.At(i).Type())
 			if n := res.At(i).Name(); n != "" && n != "_" {
 				if _, clash := vars[n]; !clash {
-					vars[n] = es[i]
+					vars[n] = vars[fmt.Sprintf("result%d", i)]
 				}
 			}
 		}
